@@ -387,15 +387,17 @@ def _item(w, it, scope):
     if k == "const":
         lit = it["lit"]
         src = lit_src(lit)
+        # UPPER_CASE name styles: plain, private (leading underscore), with digits, short
+        cname = ["MAX_LIMIT_{n}", "_MAX_LIMIT_{n}", "MAXLIMIT{n}", "HTTP2_PORT_{n}", "_POOL_{n}"][it.get("name_style", 0) % 5].format(n=n)
         if lang == "py":
-            line = w.emit(0, f"MAX_LIMIT_{n} = {src}")
+            line = w.emit(0, f"{cname} = {src}")
         elif lang in ("ts", "js"):
             kw = "export const" if it.get("export") else "const"
-            line = w.emit(0, f"{kw} MAX_LIMIT_{n} = {src};")
+            line = w.emit(0, f"{kw} {cname} = {src};")
         else:
             kw = "static" if it.get("static") else "const"
             ty = "f64" if _is_float_text(lit["text"]) else "i64"
-            line = w.emit(0, f"{kw} MAX_LIMIT_{n}: {ty} = {src};")
+            line = w.emit(0, f"{kw} {cname}: {ty} = {src};")
         w.slot(line, lit, "const", "const", scope, {"tpl": "module-const"})
     elif k == "global":
         lit = it["lit"]
@@ -416,7 +418,8 @@ def _item(w, it, scope):
             w.emit(0, f"class Config_{n}:")
             empty = True
             for j, lit in enumerate(it.get("consts", [])):
-                line = w.emit(1, f"NETWORK_TIMEOUT_{j} = {lit_src(lit)}")
+                cname = ["NETWORK_TIMEOUT_{j}", "_NETWORK_TIMEOUT_{j}", "RETRIES{j}"][(j + it.get("name_style", 0)) % 3].format(j=j)
+                line = w.emit(1, f"{cname} = {lit_src(lit)}")
                 w.slot(line, lit, "const", "const", scope, {"tpl": "class-const"})
                 empty = False
             for j, lit in enumerate(it.get("attrs", [])):
